@@ -1,7 +1,7 @@
 (* C01 - the compiled parser and the model follow the grammar's PEG semantics.
    Model/Peg.v = the interpreter textX drives (validated by correspondence); Model/Spec.v = the
    reference semantics; both over the parser model dumped from the live metamodel. *)
-From TxV Require Import Core.Base Model.PegSyntax Model.Peg Model.Spec Proofs.SpecProofs.
+From TxV Require Import Core.Base Model.PegSyntax Model.Peg Model.Spec Model.Build Proofs.SpecProofs Proofs.SpecSepProofs.
 
 (* FULL STATEMENT (the property, for the documented fragment of grammars):
      forall g c orc input, exists fuel0, forall fuel >= fuel0,
@@ -10,27 +10,85 @@ From TxV Require Import Core.Base Model.PegSyntax Model.Peg Model.Spec Proofs.Sp
    dumped grammar table.  It is false as stated (see the *_refuted theorems below: Arpeggio deviates from
    PEG semantics on several constructs), so it is proved for the class [wfg]:
 
-   C01_refinement_partial.  For every grammar table g in the class wfg g pf (constructors: Sequence,
-   OrderedChoice, Optional, ZeroOrMore, OneOrMore, StrMatch (also ignore_case), RegExMatch, EOF, rule
-   references incl. recursion, the four assignment operators (they are Sequence/Optional/ZeroOrMore/
-   OneOrMore roots); global skipws/ws; no separators, eolterm, rule modifiers, predicates, suppression,
-   unordered groups, Comment rule; every choice alternative, repetition element and rule is
-   productive, no empty literal), every config, every input, every fuel and every regex oracle that
-   never reports an empty match: if the interpreter terminates within the fuel, then it accepts
-   exactly when the reference semantics accept, and the parse trees are equal (hence the models
-   Build constructs from them are equal: Build is a function of the tree).
-   Missing for the full statement: the excluded constructors, termination (fuel) as a theorem,
-   memoization on (C19). *)
+   C01_refinement_partial.  For every grammar table g in the class wfg g pf, every config (global skipws
+   on or off, any ws), every input, every fuel and every regex oracle that never reports an empty match:
+   if the interpreter terminates within the fuel, then
+     - it accepts exactly when the DOCUMENTED reference semantics accept, at the same end position;
+     - its parse tree is the tree of the trailing-separator variant of the semantics (spec_run_q);
+     - when no repetition has a separator (nosep g) that is the documented tree itself.
+   Class wfg (Model/Spec.v node_ok): Sequence, OrderedChoice, Optional, ZeroOrMore, OneOrMore with or
+   without separator, StrMatch (also ignore_case), RegExMatch, EOF, rule references incl. recursion, the
+   four assignment operators, suppression anywhere, the predicates & ! (not as rule roots), rule-level
+   ws / skipws modifiers on Sequence/OrderedChoice rule roots; every choice alternative, repetition
+   element and (unsuppressed) rule is productive, no empty literal.
+   Still excluded: eolterm, unordered groups, a Comment rule, memoization on (C19); termination (fuel)
+   is not a theorem (C01_refinement_fuel transfers the statement to every larger fuel). *)
 Theorem C01_refinement_partial :
   forall g pf c orc fuel input,
     wfg g pf = true -> orc_pos orc ->
     match run g c orc false fuel input with
-    | Parsed r => exists ts p, spec_run g c orc fuel input = SOk ts p /\ erase_all ts = flatten r
+    | Parsed r =>
+      exists ts p, spec_run g c orc fuel input = SOk ts p /\
+                   (nosep g = true -> erase_all ts = flatten r) /\
+                   exists tsq, spec_run_q g c orc fuel input = SOk tsq p /\ erase_all tsq = flatten r
     | SyntaxErr _ => spec_run g c orc fuel input = SFail
     | Aborted _ => True
     end.
 Proof. exact refinement. Qed.
 Print Assumptions C01_refinement_partial.
+
+(* The trailing-separator variant and the documented semantics accept the same inputs with the same end
+   position, for EVERY grammar table (no class hypothesis): the quirk only changes trees. *)
+Theorem C01_trailing_separator_changes_only_trees :
+  forall g c orc fuel input,
+    match spec_run_q g c orc fuel input, spec_run g c orc fuel input with
+    | SOk _ p, SOk _ p' => p = p'
+    | SFail, SFail => True
+    | SOut, SOut => True
+    | _, _ => False
+    end.
+Proof. exact spec_q_acceptance. Qed.
+Print Assumptions C01_trailing_separator_changes_only_trees.
+
+(* One sufficient fuel is enough: if the interpreter does not run out of fuel at f, its outcome is the
+   same at every f' >= f and agrees with the reference semantics evaluated at f'. *)
+Theorem C01_refinement_fuel :
+  forall g pf c orc f f' input,
+    wfg g pf = true -> orc_pos orc -> f <= f' -> run g c orc false f input <> Aborted 0 ->
+    run g c orc false f' input = run g c orc false f input /\
+    match run g c orc false f input with
+    | Parsed r => exists ts p, spec_run g c orc f' input = SOk ts p /\ (nosep g = true -> erase_all ts = flatten r)
+    | SyntaxErr _ => spec_run g c orc f' input = SFail
+    | Aborted _ => True
+    end.
+Proof. exact refinement_fuel. Qed.
+Print Assumptions C01_refinement_fuel.
+
+(* Model equality: for grammars in the class (and a parser model whose top node is a rule root, as textX
+   builds it), the model textX constructs from the interpreter's parse tree (Build.build, for every
+   metamodel table, group oracle, auto_init_attributes and use_regexp_group setting) is the model
+   constructed from the reference tree: same objects, classes, attribute values, defaults, positions.
+   With separators the reference tree is the trailing-separator variant's; without, the documented one. *)
+Theorem C01_model_equality :
+  forall g mm pf c orc fuel input grp auto ug r,
+    wfg g pf = true -> orc_pos orc -> root_top g = true ->
+    run g c orc false fuel input = Parsed r ->
+    exists tsq p, spec_run_q g c orc fuel input = SOk tsq p /\
+      build g mm input grp auto ug r = build_flat g mm input grp auto ug (erase_all tsq) /\
+      (nosep g = true -> exists ts, spec_run g c orc fuel input = SOk ts p /\
+                                    build g mm input grp auto ug r = build_flat g mm input grp auto ug (erase_all ts)).
+Proof. exact model_equality. Qed.
+Print Assumptions C01_model_equality.
+
+(* non-vacuity: suppression, separator, predicates and a rule modifier inside the class
+   (Model: 'm'- items+=Item[','] !'z' &';' ';';  Item[noskipws]: name=ID ('=' v=INT)?;) *)
+Example C01_refinement_rich_nonvacuous :
+  wfg g_rich 24 = true /\ nosep g_rich = false /\ root_top g_rich = true /\
+  accepts (run g_rich c_default (orc_of t_rich) false 60 in_rich) = true /\
+  saccepts (spec_run g_rich c_default (orc_of t_rich) 60 in_rich) = true /\
+  accepts (run g_rich c_default (orc_of t_rich) false 60 [109;32;97]%N) = false.
+Proof. exact rich_in_class. Qed.
+Print Assumptions C01_refinement_rich_nonvacuous.
 
 (* non-vacuity: a grammar with recursion-free rules, all four node kinds and assignments is in the
    class, and is accepted / rejected on concrete inputs
@@ -72,14 +130,17 @@ Theorem C01_nullable_rule_refuted :
 Proof. exists g_nullable, c_default, (fun _ _ => None), 50, []. exact refuted_nullable. Qed.
 Print Assumptions C01_nullable_rule_refuted.
 
-(* A repetition with separator keeps the separator it gave back (x,b): terminal 6 at 1 stays in A.xs *)
+(* A repetition with separator keeps the separator it gave back (x,b): the grammar is IN the class, the
+   interpreter's tree is the variant's (terminal 6 at 1 stays in A.xs), not the documented one - so the
+   tree clause of C01_refinement_partial cannot drop its nosep hypothesis. *)
 Theorem C01_trailing_separator_refuted :
   exists g c orc fuel input,
-    wfg g 24 = false /\
+    wfg g 24 = true /\
     run_tree (run g c orc false fuel input) =
       [NT 0 [NT 1 [NT 2 [NT 3 [NT 4 [T 5 0 1 false; T 6 1 1 false]]]; T 7 1 1 true; NT 8 [T 9 2 1 true]]; T 10 3 0 true]] /\
     spec_tree (spec_run g c orc fuel input) =
-      [NT 0 [NT 1 [NT 2 [NT 3 [NT 4 [T 5 0 1 false]]]; T 7 1 1 true; NT 8 [T 9 2 1 true]]; T 10 3 0 true]].
+      [NT 0 [NT 1 [NT 2 [NT 3 [NT 4 [T 5 0 1 false]]]; T 7 1 1 true; NT 8 [T 9 2 1 true]]; T 10 3 0 true]] /\
+    spec_tree (spec_run_q g c orc fuel input) = run_tree (run g c orc false fuel input).
 Proof. exists g_trailsep, c_default, (fun _ _ => None), 50, [120;44;98]%N. exact refuted_trailsep. Qed.
 Print Assumptions C01_trailing_separator_refuted.
 
